@@ -22,12 +22,8 @@ PROPS = ["PPLV.Props.C01Status"]
 
 
 def _shape_census(ctx):
-    """-> list of differences between the status-call census of the C++ functions and of the Lean model."""
-    try:
-        from . import c01_status_shape as shp
-    except Exception:
-        return None, []
-    return shp.compare(REPO, LEAN)
+    """-> (functions compared, differences) between the status-call census of the C++ functions and of the Lean model."""
+    return shape_compare(REPO, LEAN)
 
 
 def run(ctx):
@@ -124,3 +120,143 @@ def run(ctx):
         "observer fast path taken, strong minimisation/closure changed something, the set is/becomes empty",
     ]
     return broken
+
+
+# ---------------------------------------------------------------------------------------------------
+# source shape: the status-changing calls of every modelled C++ function vs. the primitives of its Lean model
+# ---------------------------------------------------------------------------------------------------
+_PRIMS = {   # C++ call -> Lean primitive
+    "set_constraints_up_to_date": "setConstraintsUpToDate", "set_generators_up_to_date": "setGeneratorsUpToDate",
+    "set_constraints_minimized": "setConstraintsMinimized", "set_generators_minimized": "setGeneratorsMinimized",
+    "set_constraints_pending": "setConstraintsPending", "set_generators_pending": "setGeneratorsPending",
+    "set_sat_c_up_to_date": "setSatCUpToDate", "set_sat_g_up_to_date": "setSatGUpToDate", "clear_empty": "clearEmpty",
+    "clear_constraints_minimized": "clearConstraintsMinimized", "clear_generators_minimized": "clearGeneratorsMinimized",
+    "clear_pending_constraints": "clearPendingConstraints", "clear_pending_generators": "clearPendingGenerators",
+    "clear_sat_c_up_to_date": "clearSatCUpToDate", "clear_sat_g_up_to_date": "clearSatGUpToDate",
+    "clear_constraints_up_to_date": "clearConstraintsUpToDate", "clear_generators_up_to_date": "clearGeneratorsUpToDate",
+    "set_empty": "setEmpty", "set_zero_dim_univ": "setZeroDimUniv",
+}
+# C++ function (file, name, overload index) -> Lean definitions whose bodies together model it (Lean-only helpers inlined)
+_SHAPE = [
+    ("Polyhedron_nonpublic.cc", "process_pending_constraints", 0, ["ppcPrepare", "ppcFinish"]),
+    ("Polyhedron_nonpublic.cc", "process_pending_generators", 0, ["ppgPrepare", "ppgFinish"]),
+    ("Polyhedron_nonpublic.cc", "remove_pending_to_obtain_constraints", 0, ["removePendingToObtainConstraints"]),
+    ("Polyhedron_nonpublic.cc", "remove_pending_to_obtain_generators", 0, ["removePendingToObtainGenerators"]),
+    ("Polyhedron_nonpublic.cc", "update_constraints", 0, ["updateConstraints"]),
+    ("Polyhedron_nonpublic.cc", "update_generators", 0, ["updateGenerators"]),
+    ("Polyhedron_nonpublic.cc", "update_sat_c", 0, ["updateSatC"]),
+    ("Polyhedron_nonpublic.cc", "update_sat_g", 0, ["updateSatG"]),
+    ("Polyhedron_nonpublic.cc", "obtain_sorted_constraints", 0, ["obtainSortedConstraints"]),
+    ("Polyhedron_nonpublic.cc", "obtain_sorted_generators", 0, ["obtainSortedGenerators"]),
+    ("Polyhedron_nonpublic.cc", "obtain_sorted_constraints_with_sat_c", 0, ["obtainSortedConstraintsWithSatC"]),
+    ("Polyhedron_nonpublic.cc", "obtain_sorted_generators_with_sat_g", 0, ["obtainSortedGeneratorsWithSatG"]),
+    ("Polyhedron_nonpublic.cc", "strongly_minimize_constraints", 0, ["smcTail"]),
+    ("Polyhedron_nonpublic.cc", "strongly_minimize_generators", 0, ["smgTail"]),
+    ("Polyhedron_nonpublic.cc", "refine_no_check", 0, ["refineNoCheck"]),
+    ("Polyhedron_public.cc", "add_constraint", 0, ["addConstraint"]),
+    ("Polyhedron_public.cc", "add_generator", 0, ["addGenerator", "firstPoint", "insertGens"]),
+    ("Polyhedron_public.cc", "add_recycled_constraints", 0, ["addConstraints", "insertCons"]),
+    ("Polyhedron_public.cc", "add_recycled_generators", 0, ["addGenerators", "swapGens", "insertGens"]),
+    ("Polyhedron_public.cc", "refine_with_constraints", 0, ["refineWithConstraints", "insertCons"]),
+    ("Polyhedron_public.cc", "unconstrain", 0, ["unconstrain", "insertGens"]),
+    ("Polyhedron_public.cc", "unconstrain", 1, ["unconstrain", "insertGens"]),
+    ("Polyhedron_public.cc", "intersection_assign", 0, ["intersectionAssign", "insertCons"]),
+    ("Polyhedron_public.cc", "poly_hull_assign", 0, ["polyHullAssign", "insertGens"]),
+    ("Polyhedron_public.cc", "time_elapse_assign", 0, ["timeElapseAssign", "insertGens"]),
+    ("Polyhedron_public.cc", "topological_closure_assign", 0, ["closureTail"]),
+    ("Polyhedron_public.cc", "affine_image", 0, ["affineImage"]),
+    ("Polyhedron_public.cc", "affine_preimage", 0, ["affinePreimage"]),
+    ("Polyhedron_public.cc", "generalized_affine_image", 0, ["strictImageTail"]),
+    ("Polyhedron_chdims.cc", "concatenate_assign", 0, ["concatenateAssign"]),
+    ("Polyhedron_chdims.cc", "remove_space_dimensions", 0, ["removeDims"]),
+    ("Polyhedron_chdims.cc", "remove_higher_space_dimensions", 0, ["removeHigherSpaceDimensions"]),
+    ("Polyhedron_chdims.cc", "add_space_dimensions_and_project", 0, ["addSpaceDimensionsAndProject"]),
+]
+# differences of presentation (not of behaviour), per function: added to the C++ census before comparing
+_SHAPE_NOTES = {
+    # refine_no_check / the add-constraints family: the zero-dimensional `set_empty()` and the 0-dim
+    # `status.set_empty()` are the same primitive on the status word
+    # time_elapse_assign has one `x.set_empty()` for four reasons (either operand marked / found empty); the model
+    # writes one per reason
+    ("time_elapse_assign", 0): {"setEmpty": +2},
+    # insertGens is shared by the pending / non-pending branches of time_elapse (written twice in the model)
+}
+
+
+def _strip_cpp(src):
+    src = re.sub(r"/\*.*?\*/", "", src, flags=re.S)
+    return re.sub(r"//[^\n]*", "", src)
+
+
+def _cpp_bodies(path):
+    src = _strip_cpp(open(path).read())
+    out = collections.defaultdict(list)
+    for m in re.finditer(r"^PPL::Polyhedron::\s*\n?\s*(\w+)\s*\(", src, flags=re.M):
+        i = src.find("{\n", m.end())
+        j = src.find("\n}\n", i)
+        if i >= 0 and j > i:
+            out[m.group(1)].append(src[i:j])
+    return out
+
+
+def _census_cpp(body):
+    c = collections.Counter()
+    body = re.sub(r"status\.set_empty\s*\(", "STATUS_SET_EMPTY(", body)
+    for k, v in _PRIMS.items():
+        n = len(re.findall(r"(?<![\w.])(?:x\.|y\.)?%s\s*\(" % k, body))
+        if n:
+            c[v] += n
+    n = body.count("STATUS_SET_EMPTY(")
+    if n:
+        c["stSetEmpty"] += n
+    return c
+
+
+def _lean_defs(paths):
+    defs = {}
+    for p in paths:
+        src = open(p).read()
+        src = re.sub(r"/-.*?-/", "", src, flags=re.S)
+        src = re.sub(r"--[^\n]*", "", src)
+        for m in re.finditer(r"^def (\w+)[^\n]*?:=(.*?)(?=^def |^theorem |^structure |^end |^abbrev |^namespace |\Z)", src, flags=re.M | re.S):
+            defs[m.group(1)] = m.group(2)
+    return defs
+
+
+def _census_lean(body):
+    c = collections.Counter()
+    for v in list(_PRIMS.values()) + ["stSetEmpty"]:
+        n = len(re.findall(r"(?<![\w.])%s\b" % v, body))
+        if n:
+            c[v] += n
+    return c
+
+
+def shape_compare(repo, lean):
+    """-> (number of functions compared, list of differences)"""
+    ldefs = _lean_defs([os.path.join(lean, "PPLV", "PolyStatus", f) for f in ("Helpers.lean", "Ops.lean", "Ops2.lean")])
+    cache, diffs, n = {}, [], 0
+    for fn, name, idx, leans in _SHAPE:
+        path = os.path.join(repo, "src", fn)
+        if path not in cache:
+            cache[path] = _cpp_bodies(path)
+        bodies = cache[path].get(name, [])
+        if idx >= len(bodies):
+            diffs.append({"function": name, "what": "not found in src/%s" % fn})
+            continue
+        missing = [l for l in leans if l not in ldefs]
+        if missing:
+            diffs.append({"function": name, "what": "Lean definition(s) %s not found" % missing})
+            continue
+        cc = _census_cpp(bodies[idx])
+        for k, v in _SHAPE_NOTES.get((name, idx), {}).items():
+            cc[k] += v
+        lc = collections.Counter()
+        for l in leans:
+            lc.update(_census_lean(ldefs[l]))
+        n += 1
+        if +cc != +lc:
+            delta = {k: (cc.get(k, 0), lc.get(k, 0)) for k in sorted(set(cc) | set(lc)) if cc.get(k, 0) != lc.get(k, 0)}
+            diffs.append({"function": name, "overload": idx,
+                          "what": "status-changing calls (source count, model count): %s" % delta})
+    return n, diffs
